@@ -382,7 +382,8 @@ OpStep(e) ==
                   \* e.r[1] = allocation_size of a fresh with_capacity(max(len, m)), measured on the real code
                   /\ (need > 0 /\ Len(e.r) >= 1 => obsX[t].asz <= e.r[1])
           \* ... and the emptied collection is as usable as it ever was with this allocation (C10: "still usable with its allocation")
-          [] e.op = "clear" -> obsX[t].asz = prex.asz /\ e.al = <<>> /\ obsX[t].cap >= prex.mc
+          \* (clear() of an EMPTY collection returns at once - src/raw/mod.rs:851 - and keeps its tombstones: nothing to demand then)
+          [] e.op = "clear" -> obsX[t].asz = prex.asz /\ e.al = <<>> /\ (prex.len > 0 => obsX[t].cap >= prex.mc)
           [] e.op = "drain" -> e.al = <<>> /\ (e.n \in {0, 2} => obsX[t].asz = prex.asz /\ obsX[t].cap >= prex.mc)
           [] e.op = "new" -> obsX[t].asz = 0
           [] OTHER -> TRUE
